@@ -63,3 +63,17 @@ Definition srun (ops : list sop) : sstate := fold_left sstep ops s0.
 (* completion() returns: it was started and no guard is alive *)
 Definition completion_done (s : sstate) : bool :=
   completing s && forallb (fun p => negb (p_awaited p) || p_finished p) (parts s).
+
+(* A session selects between the shutdown notification and its work. [feed_lost] = the listener that
+   feeds the session (the QUIC multiplexer inside Core::listen) has stopped, which makes the work future
+   ready too, with an error. [shutdown_first] = SESSIONS_SAY_GOODBYE_WHEN_FEED_STOPS; otherwise the
+   select picks either ready branch ([coin]). *)
+Inductive wind := StillServing | Goodbye | Abrupt.
+
+Definition session_poll (shutdown_first notified feed_lost coin : bool) : wind :=
+  match notified, feed_lost with
+  | false, false => StillServing
+  | true, false => Goodbye
+  | false, true => Abrupt
+  | true, true => if shutdown_first then Goodbye else if coin then Goodbye else Abrupt
+  end.
